@@ -19,6 +19,14 @@ Tie to the code on every run (the real `rtflite.get_string_width` is the only th
            exhaustive slices.
   model    the whole `getStringWidth` model (font resolution, error order, unit conversion on exact rationals) against
            the real call, valid and invalid arguments.
+  values   every argument over Python value TYPES (None, bool, int, float incl. nan/inf, str incl. case variants and
+           near misses, bytes, tuple, frozenset, complex, numpy scalars; list / dict / set / ndarray): the Lean
+           specification `expected` (Props/C20val.lean: proved of the value-level model `getStringWidthV` for all
+           values) says what the statement demands of the call — ValueError for an unsupported font or unit WHATEVER
+           ITS TYPE, a width for supported ones, either for other types equal to a supported value — and the Lean
+           predicate `meets` is evaluated on what the real function did.  Not judged (recorded with what happened,
+           listed in the evidence): unhashable fonts / units (TypeError from the dictionary lookup on the unchanged
+           tree) and calls whose text / size / dpi lie outside the statement's quantifier.
 """
 from __future__ import annotations
 
@@ -49,7 +57,15 @@ RULE = ("oracle: (text, font 1..10 by number and by documented name, size 4..48 
         "excluded, hence no U+00AD), iid / words / mixed-script with brackets / repeated characters / Greek only, "
         "length 0..40; non-trivial = at least 3 characters and positive width; distinct by (font, size, text). "
         "L1/L2: strings of length >= 3 per (font, size); exhaustive slices = all 325 single characters and all "
-        "105 625 ordered pairs of one (font, size).")
+        "105 625 ordered pairs of one (font, size). "
+        "values: (text, font, font_size, unit, dpi) each over Python value types — None, bool, int, float (integral, "
+        "fractional, nan, inf), str (empty, case variants, one-edit near misses of the supported names, names of the "
+        "other argument), bytes, tuple, frozenset, complex, numpy int / float / bool / str scalars, and the unhashable "
+        "list / dict / set / ndarray / tuple-of-list; a seed-independent grid (every canonical value as font, as unit "
+        "under a font by number and by name, every unsupported font type x every unsupported unit type) plus random "
+        "calls; judged when text is a str, size a real number in 4..48 and dpi one in 36..600 (int, float, numpy "
+        "scalar) and font and unit are hashable; non-trivial = judged, distinct by (demand, font, unit, size type, "
+        "dpi type).")
 TRUSTED = [
     "Lean 4.33 kernel; axioms ⊆ {propext, Classical.choice, Quot.sound} (audited per theorem on every run)",
     "Lean compiler for the driver executable (compiled evaluation agrees with kernel reduction)",
@@ -69,11 +85,18 @@ ASSUME = [
     "sizes, sizes on the 1/64 grid; statistical: iid strings of >= 5 characters at sizes >= 6); it is false at "
     "smaller sizes for narrow glyphs (C20_scaling_witness)",
     "monospace clause excludes U+0374, U+0375, U+037A, which have advance 0 in Liberation Mono (C20_mono_witness)",
+    "refusal clause over value types: an unhashable font or unit (list, dict, set, numpy.ndarray, a tuple containing "
+    "one) raises TypeError from the dictionary lookup on the unchanged tree (C20_val_unhashable_font / _unit); these "
+    "classes and calls whose text / font_size / dpi lie outside the statement's quantifier are recorded, not judged; "
+    "a value of another type that equals a supported one (True, 4.0, numpy.int64(4), numpy.str_('Arial')) may be "
+    "accepted or refused with ValueError",
 ]
 MANIFEST = dict(
     text="Lean theorems over the model of get_string_width: for all strings (induction), all sizes, all dpi > 0 and "
          "all advance/kerning tables — empty string 0, non-negativity and append-monotonicity from two table "
-         "hypotheses, exact unit conversions, number ≡ name (table lemma), monospace = count × advance, error cases; "
+         "hypotheses, exact unit conversions, number ≡ name (table lemma), monospace = count × advance, error cases "
+         "(typed model, and in Props/C20val for every Python value class of every argument: unsupported font or unit "
+         "of any type ⇒ ValueError, C20_val_expected); "
          "for the generated Liberation/Carlito/Caladea/Gelasio tables the two hypotheses are derived for every size "
          "from font-unit facts decided by the kernel, plus a size-scaling error bound (≤ 1.05/64 px per character) "
          "giving the 1 % relation under an explicit mean-advance hypothesis. PARTIAL: Pillow/HarfBuzz/FreeType are "
@@ -81,8 +104,10 @@ MANIFEST = dict(
          "the Liberation faces); the monospace and scaling clauses are proved with explicit exclusions and refuted "
          "as literally stated by kernel-checked witnesses.",
     note="Runtime behaviour not exhibited by the model: HarfBuzz shaping (ligatures, contextual forms, default "
-         "ignorables such as U+00AD), FreeType hinting, float rounding. Font tables regenerated from the TTF files "
-         "with fontTools on every run.",
+         "ignorables such as U+00AD), FreeType hinting, float rounding; what Pillow / FreeType / numpy do with "
+         "arguments outside the statement's quantifier (Stage.unmodelled). Font tables regenerated from the TTF files "
+         "with fontTools on every run. The refusal clause is checked over value types of every argument (None, bool, "
+         "int, float, str, bytes, tuple, numpy scalars, …), not only unsupported strings and out-of-range ints.",
     technique="Lean 4 proof (induction over strings, fixed-point arithmetic, decide +kernel on generated font "
               "tables) + differential correspondence model/implementation + relation oracle on the implementation",
     design="7/C20",
@@ -479,6 +504,703 @@ def judge_model(res, calls, obs, echo):
                                 f"{c['size']}, unit {c['unit']}, dpi {c['dpi']})")
 
 
+# ------------------------------------------------------------------ value stream: every argument over Python value types
+#
+# "Unsupported fonts or units raise ValueError" does not say "unsupported *strings*": get_string_width checks no
+# annotation, so the refused value can be None, a bool, a float, bytes, a tuple, a numpy scalar …  The stream generates
+# every argument over value TYPES, the Lean specification (`Model.StrWidth.expected`, evaluated by the driver) says what
+# the statement demands of the call, the Lean predicate `meets` is evaluated on what the real function did.
+#
+# typed value ("tv") = JSON description of a Python object, rebuilt inside the worker:
+#   none | bool v | int v | float x | nan | inf neg | str s | bytes s(latin-1) | tuple v[] | list v[] | dict v[[k, v]] |
+#   set v[] | ndarray x[] zero_d | npint k v | npfloat k x | npbool v | npstr s | other k(complex|frozenset) …
+
+FREE_BASELINE = [
+    "font unhashable (list, dict, set, numpy.ndarray, a tuple containing one): TypeError 'unhashable type' from "
+    "`font_name not in _FONT_PATHS` on the unchanged tree — before any change; not judged",
+    "unit unhashable (same classes): TypeError from `unit not in conversions` on the unchanged tree; not judged",
+    "text not a str — None, bool, int, float, tuple, list, ndarray: TypeError from Pillow's getlength; bytes and "
+    "numpy.str_ are measured; the statement quantifies over strings; not judged",
+    "font_size outside 4..48 or not a real number — None / str / bytes / tuple / list: TypeError ('<=' not supported); "
+    "0, negative, False, -inf: ValueError from Pillow; nan, +inf, < 0.5, huge: OSError from FreeType; True and other "
+    "sizes in 0.5..4 / 48..1000 measure; not judged",
+    "dpi outside 36..600 or not a real number — never looked at for 'px' and for refused fonts / units; 'in' / 'mm': "
+    "None / str / bytes / tuple / list TypeError, 0 / 0.0 / False ZeroDivisionError, numpy zero inf, nan nan; not judged",
+]
+
+NP_INT_KINDS = ["int64", "int32", "uint8", "int16"]
+NP_FLOAT_KINDS = ["float64", "float32"]
+
+
+def tv(t, **kw):
+    d = dict(t=t)
+    d.update(kw)
+    return d
+
+
+def to_py(v):
+    """the Python object a typed value describes (worker side: imports numpy)"""
+    t = v["t"]
+    if t == "none":
+        return None
+    if t in ("bool", "int"):
+        return v["v"]
+    if t == "float":
+        return float(v["x"])
+    if t == "nan":
+        return float("nan")
+    if t == "inf":
+        return float("-inf") if v["neg"] else float("inf")
+    if t == "str":
+        return v["s"]
+    if t == "bytes":
+        return v["s"].encode("latin-1")
+    if t == "tuple":
+        return tuple(to_py(x) for x in v["v"])
+    if t == "list":
+        return [to_py(x) for x in v["v"]]
+    if t == "dict":
+        return {to_py(a): to_py(b) for a, b in v["v"]}
+    if t == "set":
+        return {to_py(x) for x in v["v"]}
+    import numpy as np
+
+    if t == "ndarray":
+        return np.array(v["x"][0]) if v.get("zero_d") else np.array(v["x"])
+    if t == "npint":
+        return getattr(np, v["k"])(v["v"])
+    if t == "npfloat":
+        return getattr(np, v["k"])(v["x"])
+    if t == "npbool":
+        return np.bool_(v["v"])
+    if t == "npstr":
+        return np.str_(v["s"])
+    if t == "other":
+        if v["k"] == "complex":
+            return complex(*v["x"])
+        if v["k"] == "frozenset":
+            return frozenset(to_py(x) for x in v["v"])
+    raise ValueError(f"typed value {v!r}")
+
+
+def tv_show(v) -> str:
+    """source-like text of a typed value (parent side: no numpy import)"""
+    t = v["t"]
+    if t == "none":
+        return "None"
+    if t in ("bool", "int"):
+        return repr(v["v"])
+    if t == "float":
+        return repr(float(v["x"]))
+    if t == "nan":
+        return "float('nan')"
+    if t == "inf":
+        return "float('-inf')" if v["neg"] else "float('inf')"
+    if t == "str":
+        return repr(v["s"])
+    if t == "bytes":
+        return repr(v["s"].encode("latin-1"))
+    if t == "tuple":
+        xs = [tv_show(x) for x in v["v"]]
+        return "(" + ", ".join(xs) + ("," if len(xs) == 1 else "") + ")"
+    if t == "list":
+        return "[" + ", ".join(tv_show(x) for x in v["v"]) + "]"
+    if t == "dict":
+        return "{" + ", ".join(f"{tv_show(a)}: {tv_show(b)}" for a, b in v["v"]) + "}"
+    if t == "set":
+        return "{" + ", ".join(tv_show(x) for x in v["v"]) + "}" if v["v"] else "set()"
+    if t == "ndarray":
+        return f"numpy.array({v['x'][0]!r})" if v.get("zero_d") else f"numpy.array({v['x']!r})"
+    if t == "npint":
+        return f"numpy.{v['k']}({v['v']})"
+    if t == "npfloat":
+        return f"numpy.{v['k']}({v['x']!r})"
+    if t == "npbool":
+        return f"numpy.bool_({v['v']})"
+    if t == "npstr":
+        return f"numpy.str_({v['s']!r})"
+    if t == "other":
+        if v["k"] == "complex":
+            return f"complex({v['x'][0]}, {v['x'][1]})"
+        return "frozenset({" + ", ".join(tv_show(x) for x in v["v"]) + "})"
+    return repr(v)
+
+
+def tv_type(v) -> str:
+    """label of the value's type for the input distribution"""
+    t = v["t"]
+    if t in ("npint", "npfloat"):
+        return "numpy." + v["k"]
+    return {"none": "NoneType", "nan": "float(nan)", "inf": "float(inf)", "npbool": "numpy.bool_", "npstr": "numpy.str_",
+            "other": v.get("k", "other"), "ndarray": "numpy.ndarray"}.get(t, t)
+
+
+def tv_hashable(v) -> bool:
+    t = v["t"]
+    if t in ("list", "dict", "set", "ndarray"):
+        return False
+    if t == "tuple" or (t == "other" and v["k"] == "frozenset"):
+        return all(tv_hashable(x) for x in v["v"])
+    return True
+
+
+def tv_lean(v) -> dict:
+    """the driver's form of a typed value (`Driver.asVal`)"""
+    t = v["t"]
+    if t in ("none", "nan", "bytes", "list", "dict", "set", "ndarray", "other"):
+        return dict(t=t)
+    if t in ("bool", "int", "npbool"):
+        return dict(t=t, v=v["v"])
+    if t == "npint":
+        return dict(t=t, v=v["v"])
+    if t in ("float", "npfloat"):
+        return dict(t=t, v=frac(float(v["x"])))
+    if t == "inf":
+        return dict(t=t, neg=v["neg"])
+    if t in ("str", "npstr"):
+        return dict(t=t, v=cps(v["s"]))
+    if t == "tuple":
+        return dict(t=t, v=[tv_lean(x) for x in v["v"]])
+    raise ValueError(f"typed value {v!r}")
+
+
+def _num_of(v):
+    """the finite number Python's == sees in a value, else None"""
+    t = v["t"]
+    if t in ("bool", "npbool"):
+        return Fraction(int(v["v"]))
+    if t in ("int", "npint"):
+        return Fraction(v["v"])
+    if t in ("float", "npfloat"):
+        return Fraction(float(v["x"]))
+    return None
+
+
+def py_font_class(v) -> str:
+    """the harness's own reading of the statement (cross-checked against Lean's `fontClass` on every case)"""
+    if not tv_hashable(v):
+        return "free"
+    t = v["t"]
+    if t == "int":
+        return "supported" if 1 <= v["v"] <= 10 else "unsupported"
+    if t == "str":
+        return "supported" if v["s"] in FONT_NAMES.values() else "unsupported"
+    if t == "npstr":
+        return "lenient" if v["s"] in FONT_NAMES.values() else "unsupported"
+    q = _num_of(v)
+    if q is not None and q.denominator == 1 and 1 <= q <= 10:
+        return "lenient"
+    return "unsupported"
+
+
+def py_unit_class(v) -> str:
+    if not tv_hashable(v):
+        return "free"
+    if v["t"] == "str":
+        return "supported" if v["s"] in UNITS else "unsupported"
+    if v["t"] == "npstr":
+        return "lenient" if v["s"] in UNITS else "unsupported"
+    return "unsupported"
+
+
+def py_num_in(v, lo, hi) -> bool:
+    return v["t"] in ("int", "float", "npint", "npfloat") and lo <= _num_of(v) <= hi
+
+
+def py_expected(c) -> str:
+    if not (c["text"]["t"] == "str" and py_num_in(c["size"], 4, 48) and py_num_in(c["dpi"], 36, 600)):
+        return "free"
+    f, u = py_font_class(c["font"]), py_unit_class(c["unit"])
+    if "free" in (f, u):
+        return "free"
+    if "unsupported" in (f, u):
+        return "ValueError"
+    if f == u == "supported":
+        return "width"
+    return "either"
+
+
+# ---- generators of one argument: (typed value); classes are decided afterwards by py_*_class
+
+
+def _near_miss(rng, word: str) -> str:
+    """a string one edit away from a supported one (also case variants, padding)"""
+    k = rng.randrange(9)
+    if k == 0:
+        return word.lower()
+    if k == 1:
+        return word.upper()
+    if k == 2:
+        return word.swapcase()
+    if k == 3 and len(word) > 1:
+        i = rng.randrange(len(word))
+        return word[:i] + word[i + 1:]
+    if k == 4 and len(word) > 1:
+        i = rng.randrange(len(word) - 1)
+        return word[:i] + word[i + 1] + word[i] + word[i + 2:]
+    if k == 5:
+        i = rng.randrange(len(word) + 1)
+        return word[:i] + rng.choice("aes -_1") + word[i:]
+    if k == 6:
+        return rng.choice([" ", "\t", ""]) + word + rng.choice([" ", "\n", "s"])
+    if k == 7:
+        return word.replace(" ", rng.choice(["", "_", "  ", "-"])) if " " in word else word + " New"
+    return word[: max(1, len(word) // 2)]
+
+
+def _container(rng, inner: list, hashable: bool):
+    """a tuple / list / dict / set / frozenset / ndarray around `inner` typed values"""
+    if hashable:
+        k = rng.choice(["tuple", "tuple", "tuple", "frozenset", "nested"])
+        if k == "tuple":
+            return tv("tuple", v=inner)
+        if k == "frozenset":
+            return tv("other", k="frozenset", v=[x for x in inner if tv_hashable(x)])
+        return tv("tuple", v=[tv("tuple", v=inner)])
+    k = rng.choice(["list", "list", "dict", "set", "tuple_of_list", "ndarray"])
+    if k == "list":
+        return tv("list", v=inner)
+    if k == "dict":
+        return tv("dict", v=[[x, tv("int", v=i)] for i, x in enumerate(inner) if tv_hashable(x)])
+    if k == "set":
+        return tv("set", v=[x for x in inner if tv_hashable(x)])
+    if k == "tuple_of_list":
+        return tv("tuple", v=[tv("list", v=inner)])
+    nums = [float(_num_of(x)) for x in inner if _num_of(x) is not None] or [4.0]
+    return tv("ndarray", x=nums, zero_d=rng.random() < 0.3)
+
+
+def gen_font_value(rng, want: str):
+    """a font argument of class `want` (supported / lenient / unsupported / free), over value types"""
+    names = list(FONT_NAMES.values())
+    k = rng.randint(1, 10)
+    if want == "supported":
+        return tv("int", v=k) if rng.random() < 0.5 else tv("str", s=FONT_NAMES[k])
+    if want == "lenient":
+        c = rng.randrange(6)
+        if c == 0:
+            return tv("bool", v=True)
+        if c == 1:
+            return tv("float", x=float(k))
+        if c == 2:
+            return tv("npint", k=rng.choice(NP_INT_KINDS), v=k)
+        if c == 3:
+            return tv("npfloat", k=rng.choice(NP_FLOAT_KINDS), x=float(k))
+        if c == 4:
+            return tv("npstr", s=FONT_NAMES[k])
+        return tv("npbool", v=True)
+    if want == "free":
+        inner = [rng.choice([tv("int", v=k), tv("str", s=FONT_NAMES[k])]) for _ in range(rng.choice([0, 1, 1, 2]))]
+        return _container(rng, inner, hashable=False)
+    c = rng.randrange(16)
+    if c == 0:
+        return tv("none")
+    if c == 1:
+        return tv("bool", v=False)
+    if c == 2:
+        return tv("int", v=rng.choice(BAD_NUMS + [-rng.randint(1, 10), rng.randint(11, 40), 10 ** 30, -2 ** 63]))
+    if c == 3:
+        return tv("float", x=rng.choice([k + 0.5, k + 0.25, 0.0, -float(k), 10.5, 11.0, 0.999, 1e300, -0.0, k + 1e-9]))
+    if c == 4:
+        return rng.choice([tv("nan"), tv("inf", neg=False), tv("inf", neg=True)])
+    if c == 5:
+        return tv("str", s=rng.choice(BAD_NAMES + list(UNITS) + ["4", "4.0", "None", "Árial", "Arial\x00"]))
+    if c in (6, 7):
+        return tv("str", s=_near_miss(rng, rng.choice(names)))
+    if c == 8:
+        return tv("bytes", s=rng.choice(names + ["", "in", "\xff"]))
+    if c == 9:
+        inner = [rng.choice([tv("int", v=k), tv("str", s=FONT_NAMES[k]), tv("none"), tv("float", x=1.5)])
+                 for _ in range(rng.choice([0, 1, 1, 2]))]
+        return _container(rng, inner, hashable=True)
+    if c == 10:
+        return tv("npint", k=rng.choice(NP_INT_KINDS), v=rng.choice([0, 11, 12, 100, 127]))
+    if c == 11:
+        return tv("npfloat", k=rng.choice(NP_FLOAT_KINDS), x=rng.choice([k + 0.5, 0.0, 11.0, 0.25]))
+    if c == 12:
+        return tv("npstr", s=_near_miss(rng, rng.choice(names)))
+    if c == 13:
+        return tv("npbool", v=False)
+    if c == 14:
+        return tv("other", k="complex", x=[k, rng.choice([1, -2])])
+    return tv("str", s=gen_text(rng, 0, 12)[0])
+
+
+def gen_unit_value(rng, want: str):
+    u = rng.choice(UNITS)
+    if want == "supported":
+        return tv("str", s=u)
+    if want == "lenient":
+        return tv("npstr", s=u)
+    if want == "free":
+        inner = [tv("str", s=u) for _ in range(rng.choice([0, 1, 1, 2]))]
+        return _container(rng, inner, hashable=False)
+    c = rng.randrange(14)
+    if c == 0:
+        return tv("none")
+    if c == 1:
+        return tv("bool", v=rng.random() < 0.5)
+    if c == 2:
+        return tv("int", v=rng.choice([0, 1, 72, 96, 300, -1, 25, 10 ** 20]))
+    if c == 3:
+        return tv("float", x=rng.choice([25.4, 72.0, 1.0, 0.0, 2.54, 96.5, -1.0]))
+    if c == 4:
+        return rng.choice([tv("nan"), tv("inf", neg=False), tv("inf", neg=True)])
+    if c == 5:
+        return tv("str", s=rng.choice(BAD_UNITS + list(FONT_NAMES.values()) + ["72", "None"]))
+    if c in (6, 7):
+        return tv("str", s=_near_miss(rng, u))
+    if c == 8:
+        return tv("bytes", s=rng.choice(list(UNITS) + ["", "cm"]))
+    if c == 9:
+        inner = [rng.choice([tv("str", s=u), tv("int", v=72), tv("none")]) for _ in range(rng.choice([0, 1, 1, 2]))]
+        return _container(rng, inner, hashable=True)
+    if c == 10:
+        return tv("npint", k=rng.choice(NP_INT_KINDS), v=rng.choice([0, 1, 72, 96]))
+    if c == 11:
+        return tv("npfloat", k=rng.choice(NP_FLOAT_KINDS), x=rng.choice([25.4, 72.0, 0.0]))
+    if c == 12:
+        return tv("npstr", s=_near_miss(rng, u)) if rng.random() < 0.7 else tv("npbool", v=True)
+    return tv("other", k="complex", x=[72, 1]) if rng.random() < 0.3 else tv("str", s=gen_text(rng, 0, 6)[0])
+
+
+def gen_size_value(rng, in_domain: bool):
+    if in_domain:
+        c = rng.randrange(5)
+        if c == 0:
+            return tv("int", v=rng.randint(4, 48))
+        if c in (1, 2):
+            return tv("float", x=gen_size(rng))
+        if c == 3:
+            return tv("npint", k=rng.choice(NP_INT_KINDS), v=rng.randint(4, 48))
+        # float32 only on values it represents exactly (1/64 grid)
+        return tv("npfloat", k=rng.choice(NP_FLOAT_KINDS), x=rng.randint(256, 3072) / 64)
+    return rng.choice([
+        tv("none"), tv("bool", v=True), tv("bool", v=False), tv("int", v=0), tv("int", v=-rng.randint(1, 12)),
+        tv("float", x=0.0), tv("float", x=-9.5), tv("float", x=0.01), tv("float", x=1e9), tv("int", v=2 ** 70),
+        tv("int", v=rng.choice([1, 2, 3, 49, 72, 200])), tv("float", x=rng.choice([0.5, 1.5, 3.999, 48.001, 100.0])),
+        tv("nan"), tv("inf", neg=False), tv("inf", neg=True), tv("str", s="12"), tv("str", s=""), tv("bytes", s="12"),
+        tv("tuple", v=[tv("int", v=12)]), tv("list", v=[tv("int", v=12)]), tv("ndarray", x=[12.0], zero_d=False),
+        tv("ndarray", x=[12.0], zero_d=True), tv("npint", k="int64", v=0), tv("npfloat", k="float64", x=-1.0),
+        tv("npbool", v=True), tv("other", k="complex", x=[12, 1])])
+
+
+def gen_dpi_value(rng, in_domain: bool):
+    if in_domain:
+        c = rng.randrange(5)
+        if c == 0:
+            return tv("int", v=rng.choice([36, 72, 96, 120, 144, 150, 300, 600]))
+        if c in (1, 2):
+            return tv("float", x=gen_dpi(rng))
+        if c == 3:
+            return tv("npint", k=rng.choice(["int64", "int32", "int16"]), v=rng.choice([36, 72, 96, 150, 300, 600]))
+        return tv("npfloat", k="float64", x=gen_dpi(rng))
+    return rng.choice([
+        tv("none"), tv("bool", v=True), tv("bool", v=False), tv("int", v=0), tv("int", v=-72), tv("float", x=0.0),
+        tv("float", x=-96.5), tv("float", x=1e-3), tv("int", v=rng.choice([1, 35, 601, 10 ** 6])), tv("int", v=10 ** 400),
+        tv("nan"), tv("inf", neg=False), tv("inf", neg=True), tv("str", s="72"), tv("str", s=""), tv("bytes", s="72"),
+        tv("tuple", v=[tv("int", v=72)]), tv("list", v=[tv("int", v=72)]), tv("ndarray", x=[72.0], zero_d=False),
+        tv("npint", k="int64", v=0), tv("npfloat", k="float64", x=0.0), tv("npbool", v=False),
+        tv("other", k="complex", x=[72, 1]), tv("dict", v=[])])
+
+
+def gen_text_value(rng, in_domain: bool):
+    t = gen_text(rng, 0, 16)[0]
+    if in_domain:
+        return tv("str", s=t)
+    l1 = "".join(c for c in t if ord(c) < 256)
+    return rng.choice([
+        tv("none"), tv("bool", v=True), tv("int", v=0), tv("int", v=12), tv("float", x=9.5), tv("nan"),
+        tv("bytes", s=l1), tv("bytes", s=""), tv("tuple", v=[tv("str", s=t)]), tv("tuple", v=[]),
+        tv("list", v=[tv("str", s=t)]), tv("list", v=[]), tv("npstr", s=t), tv("npint", k="int64", v=3),
+        tv("ndarray", x=[1.0], zero_d=False), tv("dict", v=[]), tv("set", v=[])])
+
+
+def _canonical_values(names: list[str]) -> list:
+    """one or more values of every Python value type a caller can pass, around the supported values `names`"""
+    n0 = names[0]
+    vals = [tv("none"), tv("bool", v=True), tv("bool", v=False), tv("int", v=0), tv("int", v=1), tv("int", v=4),
+            tv("int", v=10), tv("int", v=11), tv("int", v=-3), tv("int", v=72), tv("int", v=2 ** 64),
+            tv("float", x=1.5), tv("float", x=4.0), tv("float", x=0.0), tv("float", x=25.4), tv("float", x=72.0),
+            tv("float", x=-1.0), tv("float", x=1e300), tv("nan"), tv("inf", neg=False), tv("inf", neg=True),
+            tv("str", s=""), tv("str", s=" "), tv("str", s=n0.lower()), tv("str", s=n0.upper()), tv("str", s=n0 + " "),
+            tv("str", s=" " + n0), tv("str", s=n0[:-1]), tv("str", s=n0 + "s"), tv("str", s="4"), tv("str", s="None"),
+            tv("str", s="Comic Sans"), tv("str", s="cm"), tv("str", s="inch"), tv("str", s="Courier"),
+            tv("bytes", s=n0), tv("bytes", s=""), tv("tuple", v=[]), tv("tuple", v=[tv("str", s=n0)]),
+            tv("tuple", v=[tv("int", v=4)]), tv("tuple", v=[tv("int", v=4), tv("str", s=n0)]),
+            tv("tuple", v=[tv("tuple", v=[tv("none")])]), tv("other", k="frozenset", v=[]),
+            tv("other", k="frozenset", v=[tv("str", s=n0)]), tv("other", k="complex", x=[4, 1]),
+            tv("npint", k="int64", v=4), tv("npint", k="int64", v=11), tv("npint", k="int32", v=0),
+            tv("npint", k="uint8", v=72), tv("npfloat", k="float64", x=4.0), tv("npfloat", k="float64", x=1.5),
+            tv("npfloat", k="float32", x=25.5), tv("npbool", v=True), tv("npbool", v=False), tv("npstr", s=n0),
+            tv("npstr", s=n0.lower()), tv("npstr", s=""),
+            # unhashable: recorded, not judged
+            tv("list", v=[]), tv("list", v=[tv("str", s=n0)]), tv("list", v=[tv("int", v=4)]), tv("dict", v=[]),
+            tv("dict", v=[[tv("str", s=n0), tv("int", v=1)]]), tv("set", v=[]), tv("set", v=[tv("str", s=n0)]),
+            tv("tuple", v=[tv("list", v=[])]), tv("ndarray", x=[4.0], zero_d=False), tv("ndarray", x=[4.0], zero_d=True)]
+    return vals + [tv("str", s=x) for x in names] + [tv("npstr", s=x) for x in names[1:]]
+
+
+def value_grid():
+    """seed-independent: every canonical value of every type as font (all other arguments plain), as unit (under a font
+    by number and by name), and every unsupported font type against every unsupported unit type"""
+    text = tv("str", s="Placebo (N=86)")
+    base = dict(level="value", kind="grid", text=text, size=tv("int", v=12), dpi=tv("float", x=72.0))
+    fonts = _canonical_values(list(FONT_NAMES.values())) + [tv("int", v=k) for k in range(1, 11)]
+    units = _canonical_values(list(UNITS))
+    out = [dict(base, font=f, unit=tv("str", s="in")) for f in fonts]
+    out += [dict(base, font=tv("int", v=9), unit=u) for u in units]
+    out += [dict(base, font=tv("str", s="Courier New"), unit=u, size=tv("float", x=9.5), dpi=tv("int", v=300))
+            for u in units]
+    seen, reps_f, reps_u = set(), [], []
+    for v in fonts:
+        if py_font_class(v) == "unsupported" and ("f", tv_type(v)) not in seen:
+            seen.add(("f", tv_type(v)))
+            reps_f.append(v)
+    for v in units:
+        if py_unit_class(v) == "unsupported" and ("u", tv_type(v)) not in seen:
+            seen.add(("u", tv_type(v)))
+            reps_u.append(v)
+    out += [dict(base, font=f, unit=u) for f in reps_f for u in reps_u]
+    return out
+
+
+VALUE_KINDS = (["font_refused"] * 6 + ["unit_refused"] * 6 + ["both_refused"] * 2 + ["lenient"] * 3 + ["typed_valid"] * 2 +
+               ["free_unhashable"] * 2 + ["free_other"] * 3)
+
+
+def value_cases(res, n):
+    """calls over value types; `kind` names the class the generator aims at, the verdict comes from Lean's `expected`"""
+    cases = []
+    for i in range(n):
+        rng = sub_rng(res.seed, "c20v", i)
+        kind = rng.choice(VALUE_KINDS)
+        fw = uw = "supported"
+        if kind == "font_refused":
+            fw, uw = "unsupported", rng.choice(["supported", "supported", "supported", "lenient"])
+        elif kind == "unit_refused":
+            fw, uw = rng.choice(["supported", "supported", "supported", "lenient"]), "unsupported"
+        elif kind == "both_refused":
+            fw = uw = "unsupported"
+        elif kind == "lenient":
+            fw, uw = rng.choice([("lenient", "supported"), ("lenient", "supported"), ("supported", "lenient"),
+                                 ("lenient", "lenient")])
+        elif kind == "free_unhashable":
+            fw, uw = rng.choice([("free", "supported"), ("supported", "free"), ("free", "unsupported"),
+                                 ("unsupported", "free"), ("free", "free")])
+        elif kind == "free_other":
+            fw = rng.choice(["supported", "unsupported", "lenient"])
+            uw = rng.choice(["supported", "unsupported"])
+        dom = [True, True, True]
+        if kind == "free_other":
+            j = rng.randrange(3)
+            dom[j] = False
+            if rng.random() < 0.2:
+                dom[rng.randrange(3)] = False
+        c = dict(level="value", kind=kind, text=gen_text_value(rng, dom[0]), font=gen_font_value(rng, fw),
+                 size=gen_size_value(rng, dom[1]), unit=gen_unit_value(rng, uw), dpi=gen_dpi_value(rng, dom[2]))
+        cases.append(c)
+    return cases
+
+
+def call_text(c) -> str:
+    return (f"get_string_width({tv_show(c['text'])}, font={tv_show(c['font'])}, font_size={tv_show(c['size'])}, "
+            f"unit={tv_show(c['unit'])}, dpi={tv_show(c['dpi'])})")
+
+
+def _value_worker(c):
+    """one call over typed values -> ('ok', float, type) | ('okother', repr, type) | ('err', class, message)"""
+    import math
+    import numbers
+    import warnings
+
+    w = _gsw()
+    args = [to_py(c[k]) for k in ("text", "font", "size", "unit", "dpi")]
+    try:
+        with warnings.catch_warnings():
+            warnings.simplefilter("ignore")
+            v = w(*args)
+    except Exception as e:  # noqa: BLE001
+        return ("err", type(e).__name__, str(e)[:160])
+    try:
+        if isinstance(v, numbers.Real) and not isinstance(v, bool) and math.isfinite(v):
+            return ("ok", float(v), type(v).__name__)
+    except Exception:  # noqa: BLE001
+        pass
+    return ("okother", repr(v)[:80], type(v).__name__)
+
+
+def _obs_json(o):
+    if o[0] == "ok":
+        return dict(ok=frac(o[1]))
+    if o[0] == "err":
+        return dict(err=o[1])
+    return dict(other=True)
+
+
+def _obs_text(o) -> str:
+    if o[0] == "ok":
+        return f"returned {o[1]!r}"
+    if o[0] == "okother":
+        return f"returned {o[1]} ({o[2]})"
+    return f"raised {o[1]}: {o[2]}"
+
+
+def _free_reason(c, lean) -> str:
+    """why the statement does not speak about a call (first reason in argument order)"""
+    if not lean["domain"][0]:
+        return "text:" + tv_type(c["text"])
+    if lean["font_class"] == "free":
+        return "font:unhashable " + tv_type(c["font"])
+    if not lean["domain"][1]:
+        q = _num_of(c["size"])
+        return "size:" + tv_type(c["size"]) + ("" if q is None else "(<=0)" if q <= 0 else "(<4)" if q < 4 else "(>48)")
+    if lean["unit_class"] == "free":
+        return "unit:unhashable " + tv_type(c["unit"])
+    q = _num_of(c["dpi"])
+    return "dpi:" + tv_type(c["dpi"]) + ("" if q is None else "(0)" if q == 0 else "(<36)" if q < 36 else "(>600)")
+
+
+def lean_values(cases, obs=None):
+    reqs = []
+    for i, c in enumerate(cases):
+        r = {k: tv_lean(c[k]) for k in ("text", "font", "size", "unit", "dpi")}
+        if obs is not None:
+            r["obs"] = _obs_json(obs[i])
+        reqs.append(r)
+    outs = []
+    for i in range(0, len(reqs), 4000):
+        outs += common.driver_batch([dict(op="sw_vals", calls=reqs[i:i + 4000])])[0]["outs"]
+    return outs
+
+
+def value_verdicts(cases, obs):
+    """per case: (lean answer, failure text or None, disagreement text or None)"""
+    out = []
+    for c, o, m in zip(cases, obs, lean_values(cases, obs)):
+        mine = (py_font_class(c["font"]), py_unit_class(c["unit"]), py_expected(c))
+        theirs = (m["font_class"], m["unit_class"], m["expected"])
+        if mine != theirs:
+            raise common.MachineryError(f"value stream: the harness reads {call_text(c)} as {mine}, the Lean "
+                                        f"specification as {theirs}")
+        fail = dis = None
+        ex = m["expected"]
+        if ex != "free":
+            if not m["meets"]:
+                if ex == "ValueError":
+                    which = []
+                    if m["font_class"] == "unsupported":
+                        which.append(f"unsupported font {tv_show(c['font'])} ({tv_type(c['font'])})")
+                    if m["unit_class"] == "unsupported":
+                        which.append(f"unsupported unit {tv_show(c['unit'])} ({tv_type(c['unit'])})")
+                    fail = f"{' and '.join(which)} must raise ValueError, but {call_text(c)} {_obs_text(o)}"
+                elif ex == "width":
+                    fail = f"supported font and unit must give a width, but {call_text(c)} {_obs_text(o)}"
+                else:
+                    fail = (f"a value equal to a supported one (font class {m['font_class']}, unit class "
+                            f"{m['unit_class']}) must give a width or a ValueError, but {call_text(c)} {_obs_text(o)}")
+            else:
+                mr = m["model"]
+                if ex == "either" and (o[0] == "err") != ("err" in mr):
+                    # a value of another type that equals a supported one: the statement lets the code accept or
+                    # refuse it, so model (= the unchanged code's choice) and implementation may differ here
+                    pass
+                elif o[0] == "err":
+                    if mr.get("err") != o[1]:
+                        dis = f"model says {mr} but {call_text(c)} raised {o[1]}: {o[2]}"
+                elif "ok" not in mr:
+                    dis = f"model says {mr} but {call_text(c)} returned {o[1]!r}"
+                elif m["l2"]:
+                    mv, iv = Fraction(mr["ok"][0], mr["ok"][1]), Fraction(o[1])
+                    px = c["unit"].get("s") == "px"
+                    if not (mv == iv if px else abs(mv - iv) <= UNIT_TOL * max(abs(mv), abs(iv))):
+                        dis = f"model value {float(mv)!r} != implementation {o[1]!r} for {call_text(c)}"
+        out.append((m, fail, dis))
+    return out
+
+
+def shrink_value_case(c):
+    """simplify the arguments that are not needed for the failure: every subset of {text -> 'a', font_size -> 12,
+    dpi -> 72.0, the other of font / unit -> a plain supported value}; the candidate with most defaults that still fails"""
+    import itertools
+
+    simple = dict(text=tv("str", s="a"), size=tv("int", v=12), dpi=tv("float", x=72.0))
+    if py_font_class(c["font"]) != "supported" and py_unit_class(c["unit"]) in ("supported", "lenient"):
+        simple["unit"] = tv("str", s="in")
+    elif py_unit_class(c["unit"]) != "supported" and py_font_class(c["font"]) in ("supported", "lenient"):
+        simple["font"] = tv("int", v=4)
+    keys = list(simple)
+    cands = []
+    for r in range(len(keys), 0, -1):
+        for sub in itertools.combinations(keys, r):
+            d = dict(c)
+            for k in sub:
+                d[k] = simple[k]
+            d["shrunk_from"] = call_text(c)
+            cands.append(d)
+    cands = (cands + [c] * 4)[:max(4, len(cands))]
+    obs = common.pool_map(_value_worker, cands, chunksize=1)
+    for d, (m, fail, _) in zip(cands, value_verdicts(cands, obs)):
+        if fail:
+            return d, fail
+    return None
+
+
+def judge_values(res, cases, obs):
+    free_obs, free_model = {}, [0, 0, 0]
+    failures = []
+    for c, o, (m, fail, dis) in zip(cases, obs, value_verdicts(cases, obs)):
+        ex = m["expected"]
+        res.count("value:" + c["kind"])
+        res.count("value_expected:" + ex)
+        key = None
+        if ex != "free":
+            res.corr_checked += 1
+            key = ("v", ex, tv_show(c["font"]), tv_show(c["unit"]), tv_type(c["size"]), tv_type(c["dpi"]))
+            if m["font_class"] != "supported":
+                res.count(f"value_font_{m['font_class']}:{tv_type(c['font'])}")
+            if m["unit_class"] != "supported":
+                res.count(f"value_unit_{m['unit_class']}:{tv_type(c['unit'])}")
+            res.count("value_size_type:" + tv_type(c["size"]))
+            res.count("value_dpi_type:" + tv_type(c["dpi"]))
+        else:
+            # not judged: what happened is recorded per class; the model's prediction is counted, never a verdict
+            reason = _free_reason(c, m)
+            res.count("value_free:" + reason.split(":")[0])
+            seen = o[1] if o[0] == "err" else "a width" if o[0] == "ok" else f"a {o[2]}"
+            free_obs.setdefault(reason, {})
+            free_obs[reason][seen] = free_obs[reason].get(seen, 0) + 1
+            mr = m["model"]
+            if "unmodelled" in mr:
+                free_model[2] += 1
+            elif (mr.get("err") == o[1] if o[0] == "err" else "ok" in mr and o[0] == "ok"):
+                free_model[0] += 1
+            else:
+                free_model[1] += 1
+                if len([n for n in res.notes if n.startswith("not judged")]) < 5:
+                    res.notes.append(f"not judged (outside the statement): model says {mr} but {call_text(c)} "
+                                     f"{_obs_text(o)}")
+        res.case(c, key)
+        if fail:
+            failures.append((c, fail))
+        elif dis:
+            res.disagree(c, dis)
+    if failures:
+        # the simplest failing call first (it becomes the replay), shrunk further
+        failures.sort(key=lambda cf: (py_expected(cf[0]) != "ValueError", len(call_text(cf[0])), call_text(cf[0])))
+        small = shrink_value_case(failures[0][0])
+        if small:
+            failures.insert(0, small)
+        for c, why in failures:
+            res.fail(c, why)
+    res.extra["value_stream"] = dict(
+        judged=sum(v for k, v in res.distribution.items() if k.startswith("value_expected:") and not k.endswith("free")),
+        not_judged=res.distribution.get("value_expected:free", 0),
+        not_judged_classes=FREE_BASELINE,
+        not_judged_observed={k: free_obs[k] for k in sorted(free_obs)},
+        not_judged_model=dict(agrees=free_model[0], differs=free_model[1], unmodelled=free_model[2]))
+
+
 # ------------------------------------------------------------------ L1 / L2 correspondence
 
 
@@ -772,6 +1494,10 @@ def run(res: common.Result, build) -> int:
     calls = model_calls(res, 1500 if quick else 20000)
     mobs = common.pool_map(_model_worker, calls, chunksize=64)
     judge_model(res, calls, mobs, echo)
+    # every argument over Python value types: what the statement demands (Lean `expected`) vs what happened
+    vcases = value_grid() + value_cases(res, 6000 if quick else 60000)
+    vobs = common.pool_map(_value_worker, vcases, chunksize=64)
+    judge_values(res, vcases, vobs)
     # L1 / L2
     sampled_l1_l2(res, echo, 60 if quick else 1200, 40)
     exhaustive_slices(res, echo, pick_slices(res, res.tier))
@@ -785,7 +1511,10 @@ def run(res: common.Result, build) -> int:
         res, build, RULE, TRUSTED, ASSUME, known_lines=known_lines,
         explanation="Proved for all strings/sizes/dpi and all tables: C20_empty, C20_nonneg, C20_append, C20_nonneg_append_on "
                     "(hypotheses on a finite alphabet only), C20_units(_pred), "
-                    "C20_number_name, C20_monospace, C20_unknown_*; for every generated font and every size: "
+                    "C20_number_name, C20_monospace, C20_unknown_*; over every Python value class of every argument "
+                    "(Props/C20val): C20_val_expected, C20_val_unsupported_font (whatever the other arguments), "
+                    "C20_val_unsupported_unit (whatever the dpi), C20_val_refines (= the typed model on typed "
+                    "arguments); for every generated font and every size: "
                     "C20_L2_tables, C20_L2_nonneg_append, C20_L2_scaling_bound. PARTIAL (explicit hypotheses, literal "
                     "clause refuted by a kernel-checked witness): C20_mono_partial / C20_mono_witness (U+0374, U+0375, "
                     "U+037A have advance 0 in Liberation Mono), C20_scaling_partial / C20_scaling_witness ('|' in Arial "
@@ -812,6 +1541,17 @@ def replay(payload) -> int:
         o = _model_worker(case)
         print("observed:", o)
         judge_model(res, [case], [o], echo)
+    elif lvl == "value":
+        o = common.isolated(_value_worker, case)
+        print("call:", call_text(case))
+        print("observed:", _obs_text(o))
+        m, fail, dis = value_verdicts([case], [o])[0]
+        print(f"statement (Lean `expected`): font {m['font_class']}, unit {m['unit_class']} -> {m['expected']}; "
+              f"model: {m['model']}")
+        if fail:
+            res.fail(case, fail)
+        elif dis:
+            res.disagree(case, dis)
     elif lvl in ("oracle-pair", "oracle-mono-known"):
         w = _gsw()
         t = case["text"]
